@@ -21,7 +21,7 @@ TARGET = os.path.join(CACHE, "target")
 VH = os.path.join(TARGET, "release", "vh")
 MRUN = os.path.join(ROOT, "mrun", "extracted", "mrun")
 REPO = os.environ.get("VERIF_REPO", "/repo")
-NPROC = 16
+NPROC = int(os.environ.get("VERIF_NPROC", "16"))  # parallel shards / make jobs
 
 sys.path.insert(0, os.path.join(ROOT, "tools"))
 from props_table import PROPS  # noqa: E402
@@ -360,7 +360,7 @@ def step_correspondence(prop, tier, seed):
             fails.append(Failure("correspondence", f"model/implementation disagreement on {c['sig']}",
                                  f"impl={c['impl'][:400]} model={str(c['model'])[:400]}", case=c,
                                  oracle=prop.get("disagreement_is_violation")))
-        if len(seen_sigs) >= 5:
+        if len(seen_sigs) >= 8:
             break
     # in-kernel cross-check of a sample
     sample = [c for c in allcases if c.get("model") is not None][: (200 if tier == "quick" else 1000)]
